@@ -360,17 +360,26 @@ def crash_states(log, final):
     return prefix_lengths, others
 
 
+_LOAD_SEQ = 0
+
+
 def lib_load_bytes(blob, path=None):
+    """Write `blob` to a file of its own (the arrays IndxIO.load returns may be views of the mapped file: a file is never rewritten while
+    a result of it may still be alive; it is unlinked at once - the mapping keeps the data), load it, return copies AND the raw result."""
+    global _LOAD_SEQ
     from catii.indxio import IndxIO
 
-    path = path or _p("g")
+    _LOAD_SEQ += 1
+    path = os.path.join(scratch_dir(), "g-%d-%d.indx" % (os.getpid(), _LOAD_SEQ))
     with open(path, "wb") as f:
         f.write(blob)
-    with open(path, "rb") as f:
-        entries, common, dt = IndxIO.load(f)
-        # materialise before the file is closed / rewritten (arrays may view the mmap)
-        out = {k: numpy.array(v, copy=True) for k, v in entries.items()}
-        kinds = {k: (type(v).__name__, str(v.dtype)) for k, v in entries.items()}
+    try:
+        with open(path, "rb") as f:
+            entries, common, dt = IndxIO.load(f)
+            out = {k: numpy.array(v, copy=True) for k, v in entries.items()}
+            kinds = {k: (type(v).__name__, str(v.dtype)) for k, v in entries.items()}
+    finally:
+        os.unlink(path)
     return out, common, dt, kinds, entries
 
 
